@@ -81,8 +81,13 @@ def main():
             for k in ("rule", "level_if_complete"):
                 if k in mm and (k not in meta or kind == "shadow"):
                     meta[k] = mm[k]
-        if "shadow" not in mods and a.pid != "C17":
-            meta["level_if_complete"] = "other"
+        # the level recorded in the evidence is the category claimed in MANIFEST.json for this property
+        try:
+            man = json.load(open(os.path.join(common.VERIF, "MANIFEST.json")))
+            cat = {c["property_id"]: c["level_claimed"]["category"] for c in man.get("checks", [])}.get(a.pid, "other")
+        except Exception:
+            cat = "other"
+        meta["level_if_complete"] = cat
         extra = {
             "trusted_base": meta.get("trusted_base", []),
             "assumptions": meta.get("assumptions", []),
